@@ -18,7 +18,7 @@ Qed.
 (* the scatter loop: afterwards a landmark sample holds its landmark row and is no longer to be processed; every other
    position is untouched *)
 Lemma tri_scatter_spec : forall (A : Type) (dflt : A) lm le emb tp emb' tp',
-  NoDup lm -> length le = length lm ->
+  NoDup lm -> List.length le = List.length lm ->
   tri_scatter lm le emb tp = (emb', tp') ->
   forall i, match lm_pos i lm with
             | Some j => emb' i = nth j le dflt /\ tp' i = false
@@ -29,7 +29,7 @@ Proof.
   - cbn [tri_scatter] in HS. inversion HS; subst. cbn [lm_pos]. split; reflexivity.
   - destruct le as [|r le']; [cbn in HL; discriminate|].
     cbn [tri_scatter] in HS. inversion ND as [|x' t' Hnotin ND']; subst.
-    assert (HL' : length le' = length t) by (cbn in HL; lia).
+    assert (HL' : List.length le' = List.length t) by (cbn in HL; lia).
     specialize (IH le' (fupd emb x r) (fupd tp x false) emb' tp' ND' HL' HS i).
     cbn [lm_pos]. destruct (Nat.eqb x i) eqn:E.
     + apply Nat.eqb_eq in E. subst i. rewrite (lm_pos_notin x t Hnotin) in IH.
@@ -43,7 +43,7 @@ Qed.
 
 (* THE CLAUSE: row i of what triangulate() returns is the row of SAMPLE i, whatever order the landmarks come in *)
 Theorem tri_rows_in_sample_order : forall (A : Type) (dflt : A) N lm le (tri : nat -> A),
-  NoDup lm -> length le = length lm ->
+  NoDup lm -> List.length le = List.length lm ->
   tri_rows N lm le tri dflt = map (sample_row lm le tri dflt) (List.seq 0%nat N).
 Proof.
   intros A dflt N lm le tri ND HL. unfold tri_rows.
@@ -55,7 +55,7 @@ Proof.
   - destruct H as (H1 & H2). rewrite H2. reflexivity.
 Qed.
 
-Lemma lm_pos_nth : forall lm j, NoDup lm -> (j < length lm)%nat -> lm_pos (nth j lm O) lm = Some j.
+Lemma lm_pos_nth : forall lm j, NoDup lm -> (j < List.length lm)%nat -> lm_pos (nth j lm O) lm = Some j.
 Proof.
   induction lm as [|x t IH]; intros j ND Hj; [cbn in Hj; lia|].
   inversion ND as [|x' t' Hnotin ND']; subst. destruct j as [|j]; cbn [nth lm_pos].
@@ -67,7 +67,7 @@ Qed.
 
 (* ... in particular: the coordinates of landmark number j land in row landmarks[j] (every permutation of the samples) *)
 Corollary tri_rows_landmark_row : forall (A : Type) (dflt : A) N lm le (tri : nat -> A) j,
-  NoDup lm -> length le = length lm -> (j < length lm)%nat -> (nth j lm O < N)%nat ->
+  NoDup lm -> List.length le = List.length lm -> (j < List.length lm)%nat -> (nth j lm O < N)%nat ->
   nth (nth j lm O) (tri_rows N lm le tri dflt) dflt = nth j le dflt.
 Proof.
   intros A dflt N lm le tri j ND HL Hj HN. rewrite tri_rows_in_sample_order by assumption.
@@ -79,7 +79,7 @@ Qed.
 
 (* ... and a sample that is not a landmark gets its own triangulation *)
 Corollary tri_rows_other_row : forall (A : Type) (dflt : A) N lm le (tri : nat -> A) i,
-  NoDup lm -> length le = length lm -> (i < N)%nat -> ~ In i lm ->
+  NoDup lm -> List.length le = List.length lm -> (i < N)%nat -> ~ In i lm ->
   nth i (tri_rows N lm le tri dflt) dflt = tri i.
 Proof.
   intros A dflt N lm le tri i ND HL HN Hnot. rewrite tri_rows_in_sample_order by assumption.
@@ -91,17 +91,17 @@ Qed.
 (* as the SOURCE has it: every return statement of triangulate() returns the scattered matrix *)
 Theorem tri_rows_src_in_sample_order : forall F, facts_agree F ->
   forall (A : Type) (dflt : A) (g : bool) (alt : list A) N lm le (tri : nat -> A),
-  NoDup lm -> length le = length lm ->
+  NoDup lm -> List.length le = List.length lm ->
   tri_rows_src F g alt N lm le tri dflt = map (sample_row lm le tri dflt) (List.seq 0%nat N).
 Proof.
   intros F (_ & _ & _ & _ & _ & _ & _ & T5 & _) A dflt g alt N lm le tri ND HL.
-  unfold tri_rows_src, tri_rows_ret, tri_returns_ok. rewrite T5. cbn [strs_eqb length Nat.eqb combine forallb fst snd andb negb].
+  unfold tri_rows_src, tri_rows_ret, tri_returns_ok. rewrite T5. cbn [strs_eqb List.length Nat.eqb combine forallb fst snd andb negb].
   rewrite String.eqb_refl. cbn [andb negb]. apply tri_rows_in_sample_order; assumption.
 Qed.
 
 Corollary src_tri_rows_in_sample_order :
   forall (A : Type) (dflt : A) (g : bool) (alt : list A) N lm le (tri : nat -> A),
-  NoDup lm -> length le = length lm ->
+  NoDup lm -> List.length le = List.length lm ->
   tri_rows_src gen_facts g alt N lm le tri dflt = map (sample_row lm le tri dflt) (List.seq 0%nat N).
 Proof. exact (tri_rows_src_in_sample_order gen_facts src_facts_tied). Qed.
 
@@ -109,8 +109,8 @@ Proof. exact (tri_rows_src_in_sample_order gen_facts src_facts_tied). Qed.
    triangulate"): two samples, landmarks shuffled to [1; 0] -- row 0 of the result is sample 1's row *)
 Theorem tri_rows_early_return_refuted :
   exists (lm : list nat) (le : list Z),
-    NoDup lm /\ length le = length lm /\ length lm = 2%nat /\
-    tri_rows_ret false (Nat.eqb (length lm) 2%nat) le 2%nat lm le (fun _ => 0%Z) 0%Z
+    NoDup lm /\ List.length le = List.length lm /\ List.length lm = 2%nat /\
+    tri_rows_ret false (Nat.eqb (List.length lm) 2%nat) le 2%nat lm le (fun _ => 0%Z) 0%Z
       <> map (sample_row lm le (fun _ => 0%Z) 0%Z) (List.seq 0%nat 2%nat).
 Proof.
   exists [1; 0]%nat, [10; 20]%Z. repeat split.
